@@ -79,8 +79,15 @@ BinCellsAll == {[op |-> op, lt |-> a, rt |-> b, lv |-> lv, rv |-> rv, cls |-> Cl
                 op \in BinOps, a \in TNames, b \in TNames, lv \in ValClasses, rv \in ValClasses}
 UnCellsAll == {[op |-> op, lt |-> a, rt |-> a, lv |-> lv, rv |-> "zero", cls |-> Cls(ResultClass(op, Types[a], Types[a])),
              inplace |-> InPlace(op), trap |-> FALSE] : op \in UnaryOps, a \in TNames, lv \in ValClasses}
+\* shift counts: a shift is carried out in the PROMOTED type of its left operand, so 8 and 16 are valid counts for 8- and 16-bit left
+\* operands too (uint8_t(1) << 8 is the int 256); 31 is the last valid count of a 32-bit working type
+ShiftCounts == {"eight", "sixt", "tone"}
+AllShiftOps == ShiftOps \cup {"<<=", ">>="}
+ShiftCells == {[op |-> op, lt |-> a, rt |-> b, lv |-> lv, rv |-> rv, cls |-> Cls(ResultClass(op, Types[a], Types[b])),
+              inplace |-> InPlace(op), trap |-> FALSE] :
+                op \in AllShiftOps, a \in TNames, b \in TNames, lv \in ValClasses, rv \in ShiftCounts}
 \* NaN and the infinities exist for floating operands only
-BinCells == {c \in BinCellsAll : HasVal(Types[c.lt], c.lv) /\ HasVal(Types[c.rt], c.rv)}
+BinCells == {c \in BinCellsAll \cup ShiftCells : HasVal(Types[c.lt], c.lv) /\ HasVal(Types[c.rt], c.rv)}
 UnCells == {c \in UnCellsAll : HasVal(Types[c.lt], c.lv)}
 Export == ndJsonSerialize(IOEnv.OUT, SetToSeq(BinCells) \o SetToSeq(UnCells))
 
